@@ -1009,7 +1009,8 @@ def readGraph(input_file,
             # (pydot prints its own parse diagnostics on standard
             # output, where our caller may be writing a formula)
             with contextlib.redirect_stdout(io.StringIO()):
-                dots = pydot.graph_from_dot_data(input_file.read())
+                dots = pydot.graph_from_dot_data(
+                    ''.join(_text_lines(input_file)))
             if len(dots) != 1 or dots[0].get_subgraph_list():
                 raise ValueError('Dot file must contain one graph, '
                                  'without subgraphs')
@@ -1053,7 +1054,8 @@ def readGraph(input_file,
         #
         try:
             G = networkx.read_gml((line.encode('ascii')
-                                  for line in input_file), label='id')
+                                  for line in _text_lines(input_file)),
+                                  label='id')
             G = graph_class.normalize(G)
         except networkx.NetworkXError as errmsg:
             raise ValueError("[Parse error in GML input] {} ".format(errmsg))
@@ -1196,7 +1198,11 @@ def _text_lines(inputfile):
     them: a file opened by name translates them all to LF, the
     standard input and `io.StringIO` do not.
     """
-    text = inputfile.read().replace('\r\n', '\n').replace('\r', '\n')
+    text = inputfile.read()
+    if isinstance(text, bytes):
+        # a file opened in binary mode
+        text = text.decode('utf-8')
+    text = text.replace('\r\n', '\n').replace('\r', '\n')
     lines = text.split('\n')
     if lines[-1] == '':
         lines.pop()
